@@ -324,7 +324,7 @@ Print Assumptions html_template_rawtext_converse.
 Theorem html_template_flag_sound :
   forall c d l ty tk l', cfg_ok c -> tb c <> [] -> html_inv d l -> next c l = Ok (ty, tk, l') -> lhas l' = true ->
     exists p q, lpos (lz l) <= p /\ q <= lpos (lz l') /\ is_region c d p q.
-Proof. intros c d l ty tk l' Hc Htb. exact (html_template_flag_sound_proof c d Hc Htb l ty tk l'). Qed.
+Proof. exact html_template_flag_sound_stmt. Qed.
 Print Assumptions html_template_flag_sound.
 
 (* C09 — templates, comments (the "if" half in a context that was a finding): "<!--" at the cursor (no delimiter starts
